@@ -120,11 +120,13 @@ def nextLookup : List Rat → List Rat → Rat → Option Rat
   | p :: ps, q :: qs, x => if x ≤ p then some q else nextLookup ps qs x
   | _, _, _ => none
 
-/-- `interpolate_p` at one level: `fill_value=(p[0], p[-1])`, `bounds_error=False` -/
+/-- `interpolate_p` at one level: `fill_value=(q[0], q[-1])`, `bounds_error=False` (a1b7679: outside the
+given levels the end *quantiles*; before that fix the end probabilities were filled in) -/
 def interpNext (b : Bundle) (x : Rat) : Option Rat :=
-  match b.p.head?, b.p.getLast? with
-  | some p0, some pl => if x < p0 then some p0 else if pl < x then some pl else nextLookup b.p b.q x
-  | _, _ => none
+  match b.p.head?, b.p.getLast?, b.q.head?, b.q.getLast? with
+  | some p0, some pl, some q0, some ql =>
+    if x < p0 then some q0 else if pl < x then some ql else nextLookup b.p b.q x
+  | _, _, _, _ => none
 
 def allGe : List Rat → List Rat → Bool
   | a :: as, b :: bs => decide (b ≤ a) && allGe as bs
@@ -134,14 +136,21 @@ def isIncr : List Rat → Bool
   | a :: b :: rest => decide (a ≤ b) && isIncr (b :: rest)
   | _ => true
 
+/-- is there a step with `left > right`? (`np.any(self.left > self.right)`, 1ca78ea) -/
+def anyGt : List Rat → List Rat → Bool
+  | a :: as, b :: bs => decide (b < a) || anyGt as bs
+  | _, _ => false
+
 /-- `Staircase.from_CDFbundle(a, b)` on the levels `pv` (= `Params.p_values`, 200 of them):
-extend, look up, `left_right_switch`, `is_increasing` check -/
+extend, look up, `left_right_switch`, `is_increasing` check, crossing check (1ca78ea) -/
 def fromBundles (a b : Bundle) (pv : List Rat) : Except Err (List Rat × List Rat) :=
   if a.p = [] ∨ a.q = [] ∨ b.p = [] ∨ b.q = [] then .error .Index else
   match pv.mapM (interpNext (extend a)), pv.mapM (interpNext (extend b)) with
   | some l, some r =>
     let lr := if allGe l r then (r, l) else (l, r)
-    if isIncr lr.1 && isIncr lr.2 then .ok lr else .error .Other
+    if isIncr lr.1 && isIncr lr.2 then
+      (if anyGt lr.1 lr.2 then .error .Other else .ok lr)
+    else .error .Other
   | _, _ => .error .Value
 
 def ksPbox (s : List Rat) (D : Rat) (pv : List Rat) : Except Err (List Rat × List Rat) :=
